@@ -4,6 +4,7 @@ import J5V.Compile.Congr
 import J5V.Compile.AppendDeclPkg
 import J5V.Compile.AppendFresh
 import J5V.Compile.ExactProofs
+import J5V.Compile.AppendEdit
 /-!
 # C13 — appending declarations never changes existing wire identities
 
@@ -173,6 +174,87 @@ theorem C13_append_decl_fresh (b b' : Bundle) (pkg : Str) (fi : Nat) (el : Elem)
       obtain ⟨f', hf'm, hle⟩ := this f ((sortFiles_perm_self l.files).mem_iff.mp hfm)
       exact ⟨f', (sortFiles_perm_self l'.files).mem_iff.mpr hf'm, hle⟩
 
+/-- **Append a field — the edit itself, package level.** Let `b'` be the bundle after
+`appendField` at a top-level declaration (path `[el i]`: the protocol's edit adds the property at
+the end of the `i`-th element of the `fi`-th file of package `pkg`, which the edit requires to be an
+object or a oneof), and let both versions compile up to the link step. If the names the new property
+exports (its inline types, `newFieldExportNames`) are not yet exported by the package, then every
+generated file is generated again under the same name and package with the same services and enums,
+and every message is found again with the same name, kind and entity annotation, its old fields
+(name, JSON name, number, type, label, optionality, type name, oneof index) as a prefix of the new
+ones and all its nested messages and enums kept (`FileSkel.LeEdit`) — what the harness looks up by
+name. No hypothesis on resolvers: agreement on every existing reference of every file of the package
+is derived from freshness, the dependencies load identically. Any number of files, packages,
+dependency depth; the new property is arbitrary (inline types of any depth, references, maps). -/
+theorem C13_append_field_pkg (b b' : Bundle) (pkg : Str) (fi i : Nat) (prop : Property)
+    (he : (Edit.appendField fi [.el i] prop).apply pkg b = some b')
+    (fs fs' : List FileSkel) (h : compilePkg b pkg = .ok fs) (h' : compilePkg b' pkg = .ok fs')
+    (hfresh : ∀ p path imports E1 E2 io n ps ne psm decl, b.find pkg = some p →
+      p.files[fi]? = some (.j5s path imports (E1 ++ [declElem io (.mk n ps ne psm)] ++ E2) decl) →
+      E1.length = i →
+      ∀ x ∈ newFieldExportNames n prop, x ∉ (p.files.map sumOf).flatMap (fun s => s.exports.map (·.1))) :
+    ∀ f ∈ fs, ∃ f' ∈ fs', f.LeEdit f' := by
+  obtain ⟨p, pre, post, g, g', hf, hp, hlen, happ, hf', hother, hl⟩ := apply_edit_struct _ b pkg b' he
+  cases g with
+  | proto pth msgs enums => simp [Edit.applyFile] at happ
+  | j5s path imports elems decl =>
+    simp only [Edit.applyFile] at happ
+    cases hed : editElems (.field prop) [.el i] elems with
+    | none => simp [hed] at happ
+    | some elems' =>
+      simp only [hed, Option.map_some, Option.some.injEq] at happ
+      subst happ
+      obtain ⟨E1, E2, io, n, ps, ne, psm, h1, h2, h3⟩ := editElems_field_top prop i elems elems' hed
+      subst h1; subst h2
+      have hget : p.files[fi]? = some (.j5s path imports (E1 ++ [declElem io (.mk n ps ne psm)] ++ E2) decl) := by
+        rw [hp]
+        simp only [Edit.file] at hlen
+        rw [← hlen]; simp
+      have hfr := hfresh p path imports E1 E2 io n ps ne psm decl hf hget h3
+      exact replace_elems_compile b b' pkg p pre post path imports _ _ decl hp hf hf' hother hl fs fs' h h'
+        (fun k => k ∉ newFieldExportNames n prop)
+        (fun s s' hs hs' => summary_append_field_top path imports E1 E2 io n ps prop ne psm s s' hs hs')
+        (fun f _ r _ hmem hx => hfr r.2 hx hmem)
+        (fun res fs fs' hc hc' => convertFile_append_field_top res path imports E1 E2 io n ps prop ne psm fs fs' hc hc')
+
+/-- **Append an option — the edit itself, package level.** Let `b'` be the bundle after
+`appendOption` at a top-level enum (path `[el i]`; the edit requires the `i`-th element of the file
+to be an enum), both versions compiling up to the link step. The export entry of the enum itself
+changes (an `EnumRef` carries the value names, which `rules.in / notIn` and default filters of
+referring fields are checked against), so the statement is for an enum that no field of the package
+refers to by its name: then every generated file is generated again under the same name and package
+with the same services and the same messages (up to `LeEdit`, here equality of every message), and
+every enum is found again under its name with its old values — names and numbers — as a prefix. -/
+theorem C13_append_option_pkg (b b' : Bundle) (pkg : Str) (fi i : Nat) (o : Str)
+    (he : (Edit.appendOption fi [.el i] o).apply pkg b = some b')
+    (fs fs' : List FileSkel) (h : compilePkg b pkg = .ok fs) (h' : compilePkg b' pkg = .ok fs')
+    (hnoref : ∀ p path imports E1 E2 e decl, b.find pkg = some p →
+      p.files[fi]? = some (.j5s path imports (E1 ++ [.enum e] ++ E2) decl) → E1.length = i →
+      ∀ f ∈ p.files, ∀ r ∈ srcFileRefs f, r.2 ≠ e.name) :
+    ∀ f ∈ fs, ∃ f' ∈ fs', f.LeEdit f' := by
+  obtain ⟨p, pre, post, g, g', hf, hp, hlen, happ, hf', hother, hl⟩ := apply_edit_struct _ b pkg b' he
+  cases g with
+  | proto pth msgs enums => simp [Edit.applyFile] at happ
+  | j5s path imports elems decl =>
+    simp only [Edit.applyFile] at happ
+    cases hed : editElems (.option o) [.el i] elems with
+    | none => simp [hed] at happ
+    | some elems' =>
+      simp only [hed, Option.map_some, Option.some.injEq] at happ
+      subst happ
+      obtain ⟨E1, E2, e, h1, h2, h3⟩ := editElems_option_top o i elems elems' hed
+      subst h1; subst h2
+      have hget : p.files[fi]? = some (.j5s path imports (E1 ++ [.enum e] ++ E2) decl) := by
+        rw [hp]
+        simp only [Edit.file] at hlen
+        rw [← hlen]; simp
+      have hnr := hnoref p path imports E1 E2 e decl hf hget h3
+      exact replace_elems_compile b b' pkg p pre post path imports _ _ decl hp hf hf' hother hl fs fs' h h'
+        (fun k => k ≠ e.name)
+        (fun s s' hs hs' => summary_append_option_top path imports E1 E2 e o s s' hs hs')
+        (fun f hfm r hr _ => hnr f hfm r hr)
+        (fun res fs fs' hc hc' => convertFile_append_option_top res path imports E1 E2 e o fs fs' hc hc')
+
 /-- conversion depends on the resolver only at the references it contains: the bridge between the
 per-container theorems and package-level edits -/
 theorem C13_convert_congr (res res' : Resolver) (path : Str) (imports : List Import)
@@ -250,5 +332,33 @@ example : ∀ f ∈ [fileA [], fileB], AgreeFile lOld.resolver lNew.resolver f :
     have h3 : lOld.resolver.deps = [] ∧ lNew.resolver.deps = [] := by decide
     simp only [resolveTypeNoImport, ImportMap.expand, Bool.true_or, decide_true, if_true,
       Resolver.resolveType, h1, h2, h3.1, h3.2]
+
+/-- the hypotheses of `C13_append_field_pkg` on the same instance: a field with an inline object is
+appended to object `A` (element 0 of file 0); the edit applies, both versions compile, the one new
+export `A.Zz` is not exported by the package before -/
+def newProp : Property :=
+  .mk b!"zz" false false (.objectInl [] [.mk b!"y" false false (.string [] false)] false [])
+def bunF : Bundle :=
+  match (Edit.appendField 0 [.el 0] newProp).apply b!"foo.v1" (bun []) with | some b => b | none => { pkgs := [] }
+
+example : ((Edit.appendField 0 [.el 0] newProp).apply b!"foo.v1" (bun [])).isSome = true ∧
+    (compilePkg (bun []) b!"foo.v1").isOk = true ∧ (compilePkg bunF b!"foo.v1").isOk = true ∧
+    newFieldExportNames b!"A" newProp = [b!"A.Zz"] ∧
+    ([fileA [], fileB].map sumOf).flatMap (fun s => s.exports.map (·.1)) = [b!"A", b!"B"] := by
+  decide
+
+/-- …and of `C13_append_option_pkg`: an enum `E` next to the object, referenced by no field; the
+option `TWO` is appended -/
+def fileE : SrcFile :=
+  .j5s b!"foo/v1/a.j5s" [] [.enum { name := b!"E", pfx := [], opts := [b!"ONE"] },
+    .object (.mk b!"A" [.mk b!"x" false false (.string [] false)] [] none)] b!"foo.v1"
+def bunE : Bundle := { pkgs := [ { name := b!"foo.v1", files := [fileE, fileB] } ] }
+def bunE' : Bundle :=
+  match (Edit.appendOption 0 [.el 0] b!"TWO").apply b!"foo.v1" bunE with | some b => b | none => { pkgs := [] }
+
+example : ((Edit.appendOption 0 [.el 0] b!"TWO").apply b!"foo.v1" bunE).isSome = true ∧
+    (compilePkg bunE b!"foo.v1").isOk = true ∧ (compilePkg bunE' b!"foo.v1").isOk = true ∧
+    [fileE, fileB].flatMap srcFileRefs = [([], b!"A")] := by
+  decide
 
 end J5V.Props.C13
